@@ -22,9 +22,9 @@ def run(tier, t0):
         stale.setdefault(s["key"], set()).add(s["config"])
     rep.stale = sorted(k for k, v in stale.items() if len(v) == 2)
     rep.floor("total_entry_points", 400)
-    rep.floor("panic_site_x_entry_pairs", 3000)
-    rep.floor("boxed_uint_constructions", 10)
-    rep.floor("caller_sized_copies", 2)
+    rep.floor("panic_site_x_entry_pairs", 2400)
+    rep.floor("boxed_uint_constructions", 6)
+    rep.floor("caller_sized_copies", 1)
     return finish(rep, tier, t0,
                   explanation="interprocedural label-flow (with implicit flows and immediate-guard semantics) of every "
                               "explicit panic site to the arguments of every option/result-returning public operation, "
